@@ -178,11 +178,37 @@ def run_axis(ctx, classes, ax, seg):
         m2.get_raw(cname)
         m2.set_raw(uctl, spec[name].ctl(uctl).members[unit])
         loaded = read_sunvox_file(BytesIO(Synth(mod).read())).module
-        for who, obj in (("after set_raw of the unit", m2), ("after loading", loaded)):
+        objs = [("after set_raw of the unit", m2), ("after loading", loaded)]
+        # modules loaded from files of older SunVox versions, which carry fewer controller values than
+        # the type has today (none at all / everything before the unit controller), then given the unit
+        from vlib import chunktools
+
+        full = chunktools.parse(Synth(cls()).read())
+        names = list(cls.controllers)
+        for keep in sorted({0, names.index(uctl), min(names.index(uctl), names.index(cname))}):
+            seen_cval = 0
+            short = []
+            for cid, pl in full:
+                if cid == b"CVAL":
+                    seen_cval += 1
+                    if seen_cval > keep:
+                        continue
+                short.append((cid, pl))
+            old = read_sunvox_file(BytesIO(chunktools.build(short))).module
+            if keep % 2:
+                old.set_raw(uctl, spec[name].ctl(uctl).members[unit])
+            else:
+                setattr(old, uctl, getattr(cls.controllers[uctl].value_type, unit))
+            objs.append(("loaded from a file with only %d controller values, then given the unit" % keep, old))
+            ctx.label("short_file_then_unit")
+        for who, obj in objs:
             for v, want in ((lo, 0), (hi, 0x8000)):
                 p = ctl.pattern_value(obj, v)
                 ctx.check(p == want, "C10.pattern.unit_switch", "%s %s: pattern_value(%d)=%r, expected %d" % (ent, who, v, p, want), recipe={"entity": ent, "unit": unit, "value": v})
-        ctx.case(4)
+            if obj is not m2 and obj is not loaded:
+                setattr(obj, cname, hi)
+                ctx.check(obj.get_raw(cname) == hi - (lo if lo < 0 else 0), "C10.raw.unit_switch", "%s %s: %d stored as %r" % (ent, who, hi, obj.get_raw(cname)), recipe={"entity": ent, "unit": unit, "value": hi})
+        ctx.case(2 * len(objs))
     span = hi - lo
     off = lo if (lo < 0 and kind != "no_offset") else 0
     nontrivial = lo < 0 or (32768 % span != 0 if span else True) or kind == "dependent"
